@@ -84,7 +84,106 @@ pub mod verif_hooks {
         external_links_task, LinksTaskConfig, LinksTaskState, NoReport, PendingWrites, ReportFailed,
     };
     pub use super::links::{Links, TriggerUnlink};
+    pub use super::receiver::LaneData;
+    pub use super::remotes::{RemoteSender, UplinkResponse};
+    pub use super::write_fut::{WriteResult, WriteTask};
     pub use super::{CommandChannelRequest, ExternalLinkRequest};
+
+    use super::{
+        Initialization, RwCoordinationMessage, TaskMessageResult, WriteTaskMessage, WriteTaskState,
+    };
+    use bytes::BytesMut;
+    use swimos_api::address::RelativeAddress;
+    use swimos_api::persistence::StoreDisabled;
+    use swimos_model::Text;
+    use swimos_utilities::byte_channel::ByteWriter;
+    use swimos_utilities::trigger::promise;
+    use uuid::Uuid;
+
+    /// The state of the write task, with its operations callable one at a time.
+    pub struct WriteState(WriteTaskState, Initialization);
+
+    impl WriteState {
+        pub fn new(identity: Uuid, node_uri: &str) -> Self {
+            WriteState(
+                WriteTaskState::new(identity, Text::new(node_uri), None),
+                Initialization::new(None, std::time::Duration::from_secs(1)),
+            )
+        }
+
+        pub fn register_lane(&mut self, name: &str) -> u64 {
+            self.0.register_lane(Text::new(name), None)
+        }
+
+        async fn message(&mut self, msg: WriteTaskMessage) -> Option<WriteTask> {
+            let WriteState(state, init) = self;
+            match state.handle_task_message(msg, init, &StoreDisabled).await {
+                TaskMessageResult::ScheduleWrite { write, .. } => Some(write),
+                _ => None,
+            }
+        }
+
+        pub async fn add_remote(
+            &mut self,
+            id: Uuid,
+            writer: ByteWriter,
+        ) -> promise::Receiver<crate::agent::DisconnectionReason> {
+            let (completion, rx) = promise::promise();
+            self.message(WriteTaskMessage::Remote {
+                id,
+                writer,
+                completion,
+                on_attached: None,
+            })
+            .await;
+            rx
+        }
+
+        pub async fn link(&mut self, origin: Uuid, lane: &str) -> Option<WriteTask> {
+            self.message(WriteTaskMessage::Coord(RwCoordinationMessage::Link {
+                origin,
+                lane: Text::new(lane),
+            }))
+            .await
+        }
+
+        pub async fn unlink(&mut self, origin: Uuid, lane: &str) -> Option<WriteTask> {
+            self.message(WriteTaskMessage::Coord(RwCoordinationMessage::Unlink {
+                origin,
+                lane: Text::new(lane),
+            }))
+            .await
+        }
+
+        pub async fn unknown_lane(&mut self, origin: Uuid, lane: &str) -> Option<WriteTask> {
+            self.message(WriteTaskMessage::Coord(RwCoordinationMessage::UnknownLane {
+                origin,
+                path: RelativeAddress::new(Text::new("/node"), Text::new(lane)),
+            }))
+            .await
+        }
+
+        pub fn handle_event(&mut self, lane_id: u64, data: LaneData) -> Vec<WriteTask> {
+            self.0.handle_event(lane_id, data).collect()
+        }
+
+        pub fn replace(&mut self, writer: RemoteSender, buffer: BytesMut) -> Option<WriteTask> {
+            self.0.replace(writer, buffer)
+        }
+
+        pub fn remove_lane(&mut self, lane_id: u64) -> Vec<WriteTask> {
+            self.0.remove_lane(lane_id).filter_map(|(_, w)| w).collect()
+        }
+
+        pub fn unlink_all(&mut self) -> Vec<WriteTask> {
+            self.0.unlink_all().collect()
+        }
+
+        pub fn remove_remote(&mut self, id: Uuid) {
+            self.0
+                .remove_remote(id, crate::agent::DisconnectionReason::RemoteTimedOut)
+        }
+    }
 }
 
 pub use external_links::LinksTaskConfig;
